@@ -29,6 +29,13 @@ LOOKUPS = [
     {"k": "open", "path": H("l/c/../../b/f"), "flags": O["PATH"]},
     {"k": "readlink", "path": H("a/b/../../l")},
     {"k": "readlink", "path": H("d/e/../s")},
+    # a trailing link / file reached right after a '..': the names have host twins where the walk lands if a/b was moved out
+    {"k": "resolve", "path": H("a/b/../hlink"), "nofollow": True},
+    {"k": "readlink", "path": H("a/b/../hlink")},
+    {"k": "open", "path": H("a/b/../hlink"), "flags": O["PATH"] | O["NOFOLLOW"]},
+    {"k": "resolve", "path": H("a/b/../hlink")},
+    {"k": "resolve", "path": H("a/b/c/../../hfile")},
+    {"k": "open", "path": H("a/b/../hfile"), "flags": O["RDONLY"]},
 ]
 
 
@@ -148,8 +155,8 @@ def run(ck):
         "evaluations": stats["runs"],
         "distinct_nontrivial": len(nontrivial),
         "exhaustive": bool(thorough),
-        "rule": "12 lookups with '..'/symlink components (resolve, resolve_nofollow, open_subpath, readlink) on one scenario tree x %s relevant "
-                "system-call boundaries of the baseline trace x 10 attacker actions (move a/b, a, d/e out of the root; exchange a/b, a, d, d/e, a/b/f "
+        "rule": "18 lookups with '..'/symlink components (resolve, resolve_nofollow, open_subpath, readlink) on one scenario tree x %s relevant "
+                "system-call boundaries of the baseline trace x 11 attacker actions (move a/b, a, d/e out of the root; move a/b up; exchange a/b, a, d, d/e, a/b/f "
                 "with links to outside / '../..'; exchange with a sibling; unlink)%s, both backends; non-trivial = the attack was really applied "
                 "before the walk ended; distinct by (lookup, boundary, action, backend, outcome)" % ("all" if thorough else "sampled (420 per lookup)",
                                                                                                       " plus do/undo pairs" if thorough else ""),
